@@ -7,3 +7,8 @@ pub broadcast axiom fn axiom_utf8_lossy_inverse(s: Seq<char>)
     ensures #[trigger] utf8_lossy(utf8(s)) == s;
 pub assume_specification [String::as_bytes] (s: &String) -> (r: &[u8])
     ensures r@ == utf8(s@);
+// TRUSTED: a String's UTF-8 encoding is at most isize::MAX bytes long (it lives in a Vec<u8>)
+#[verifier::external_body]
+pub proof fn axiom_utf8_len(s: Seq<char>)
+    ensures utf8(s).len() <= 0x7fff_ffff_ffff_ffff
+{ }
